@@ -632,3 +632,31 @@ func (c *Check) openBytesStable(rule string) {
 	c.require(len(aliases) == 0 || perIter, rule, "fsm.read", "decoded OPEN does not alias a reused buffer", pos,
 		fmt.Sprintf("Capability.Value aliases the decoder input at %v; the reader's body buffer is allocated per message = %v (otherwise the next read rewrites the capabilities under validate()/OnOpenMessage)", dedup(aliases), perIter))
 }
+
+// validateArguments: the received OPEN is validated against this speaker's
+// identifier and the configured local and remote AS, in that order (the RFC
+// 6286 rule "equal identifiers only matter within one AS" and the collision
+// tie-break on equal identifiers both depend on it).
+func (c *Check) validateArguments(rule string) {
+	p := c.P
+	outer := p.Fn("fsm.openSent")
+	if outer == nil {
+		return
+	}
+	fn := p.closureWithCall(outer, descIs("openMessage.validate"))
+	if fn == nil {
+		c.undecided(rule, "fsm.openSent", "validate call", p.Pos(outer.Pos()), "no call of openMessage.validate found in openSent")
+		return
+	}
+	a := NewAnalysis(p, fn)
+	a.Run()
+	n := 0
+	for _, cl := range p.callsIn(fn, descIs("openMessage.validate")) {
+		for _, args := range a.callArgsAt(cl) {
+			n++
+			ok := len(args) == 4 && isFieldRead(args[1], "id") && isFieldRead(args[2], "LocalAS") && isFieldRead(args[3], "RemoteAS")
+			c.require(ok, rule, p.Name(fn), "validate arguments", p.InstrPos(cl.(ssa.Instruction)), "validate(peer.id, config.LocalAS, config.RemoteAS)")
+		}
+	}
+	c.floor(rule, n, 1, "validate call sites in openSent")
+}
